@@ -601,6 +601,11 @@ def handle (line : String) : String :=
         let r := serialMultiCase false (← ms.mapM parseMsg) (← parseREvents rd) (← parseWEvents wr)
         pure (if wr.contains "F" then r ++ " [flush-fails]" else r)
       | _ => none
+  | "serialmtc" :: rest => orBad do
+      -- the same exchanges while other bus objects come and go on another thread: bus objects share nothing
+      match splitBar rest with
+      | [ms, rd, wr] => pure (serialMultiCase true (← ms.mapM parseMsg) (← parseREvents rd) (← parseWEvents wr))
+      | _ => none
   | "serialmtu" :: rest => orBad do
       -- the same exchanges made while the calling thread is unwinding from a panic: nothing changes
       match splitBar rest with
